@@ -338,7 +338,7 @@ pub trait RollingValidCmp<T: IsNone>: Vec1View<T> {
     {
         let window = min(self.len(), window);
         let min_periods = min_periods.unwrap_or(window / 2);
-        let w_m1 = window - 1; // window minus one
+        let w_m1 = window.saturating_sub(1); // window minus one (the window is 0 for an empty series)
         let mut n = 0usize; // keep the num of valid elements
         self.rolling_apply_idx(
             window,
